@@ -313,3 +313,60 @@ class GEN_DATACLASS:
     only_raises = ["Exception"]
     assumes = ["BOUNDED: the loop over parser.fields is unrolled for a class with exactly two declared fields",
                "no $defs registry (self.defs is None), no mode, no dependencies, no annotations"]
+
+
+# ------------------------------------------------------------------------------------ JsonSchemaParser.parse_type (C15)
+
+P = "utype/specs/json_schema/parser.py"
+JSP_FIELDS = dict(default_type=Cls(name="default_type"), type_map=NONE, json_schema=NONE, name=NONE, description=NONE)
+
+
+def _install_p(world):
+    world.models["JsonSchemaParser"] = RecordModel(world, P, "JsonSchemaParser", JSP_FIELDS)
+
+
+_C.INSTALLERS.append(_install_p)
+
+
+def _schema_desc(**present):
+    """a JSON Schema object with exactly the given keywords (values symbolic)"""
+    def mk(ex):
+        d = VDict()
+        for k, v in present.items():
+            d.items[k] = (z3.BoolVal(True), v.fresh(ex, "schema_%s" % k.replace("$", "")))
+        return d
+    return Const(mk, name="schema{%s}" % ",".join(present))
+
+
+from contracts.parsing import DICT_WF as _TM   # noqa: the keyword -> class table (distinct keys)
+
+
+@contract(P, "JsonSchemaParser.parse_type", props=["C15"])
+class PARSE_TYPE:
+    """C15 `building a type from a schema succeeds`: for a schema that gives a value through `const` / `enum`
+    but no `type`, the type is the class of that value; no exception."""
+    cases = {"const-only": dict(self=Rec("JsonSchemaParser"), schema=_schema_desc(const=OBJ_NN), name=NONE, description=NONE,
+                                with_constraints=FALSE),
+             "empty": dict(self=Rec("JsonSchemaParser"), schema=_schema_desc(), name=NONE, description=NONE, with_constraints=FALSE),
+             "type+format": dict(self=Rec("JsonSchemaParser", type_map=_TM), schema=_schema_desc(type=Str("integer"), format=STR),
+                                 name=NONE, description=NONE, with_constraints=FALSE)}
+    returns_by_case = {"const-only": {"class_of_the_constant": "result is typeof(schema['const'])"},
+                       "empty": {"anything": "result is self.default_type"},
+                       "type+format": {
+                           "known_format_wins": "implies(has_key(self.type_map, schema['format']) and len(schema['format']) > 0, "
+                                                "value_at(self.type_map, schema['format'], result))",
+                           "unknown_format_falls_back_to_the_type": "implies(not has_key(self.type_map, schema['format']) and "
+                                                                    "has_key(self.type_map, 'integer'), value_at(self.type_map, 'integer', result))"}}
+    only_raises = []
+    assumes = ["with_constraints=False (constraints are applied by Rule.annotate: external here)",
+               "the constant is not the `unprovided` sentinel and is truthy-independent"]
+
+    @staticmethod
+    def setup(ex, frame):
+        s = frame.env["schema"]
+        if "const" in s.items:
+            ex.assume(ex.box(s.items["const"][1]) != ex.world.opaque_const("unprovided"))
+        tm = frame.env["self"].fields["type_map"]
+        if isinstance(tm, VMap):
+            # the table maps names to classes (truthy, not None)
+            ex.assume(ex.forall(0, tm.n, lambda i: z3.And(z3.Select(tm.vals, i) != sym.NONE, sym.truthy_f(z3.Select(tm.vals, i)))))
